@@ -231,6 +231,7 @@ class Path:
         self.events = _Log("e", self.trace)      # ('call', path, args, loc) / ('assert', kind, loc) / ...
         self.heap = {}        # (base key, proj key) -> V   writes through opaque refs
         self.widened = set()  # (frame id, loop header) already widened on this path
+        self.loop_heap = {}   # (frame id, loop header) -> heap at the first arrival
         self.next_fid = 0
         self.status = None
         self.result = None
@@ -245,6 +246,7 @@ class Path:
         p.events = _Log("e", p.trace, self.events)
         p.heap = dict(self.heap)
         p.widened = set(self.widened)
+        p.loop_heap = dict(self.loop_heap)
         p.next_fid = self.next_fid
         return p
 
@@ -598,19 +600,30 @@ class Interp:
             bi = frame.bb
             cnt = frame.visits.get(bi, 0) + 1
             frame.visits[bi] = cnt
-            if pol.loop_mode == "widen" and bi in self._loop_info(body):
-                path.events.append(("loophead", bi, body["path"], frame.fid))
+            is_head = pol.loop_mode == "widen" and bi in self._loop_info(body)
+            arrive_state = None
+            if is_head:
+                # loop-carried state on arrival (values of every local the loop may assign)
+                arrive_state = {L: self.snap_deep(path, frame.locals[L]) for L in self._loop_info(body)[bi][1] if L in frame.locals}
+                if cnt == 1:
+                    path.loop_heap[(frame.fid, bi)] = dict(path.heap)
             if cnt > pol.max_visits:
                 li = self._loop_info(body)
                 if pol.loop_mode == "widen" and bi in li:
                     wk = (frame.fid, bi)
                     if wk in path.widened:
+                        path.events.append(("loophead", bi, body["path"], frame.fid, arrive_state, None))
                         path.status, path.note = "loop-pruned", "bb%d of %s" % (bi, body["path"])
                         return []
                     path.widened.add(wk)
                     blocks, assigned = li[bi]
                     for L in assigned:
-                        frame.locals[L] = Unknown("loop:%s:_%d" % (body["path"].split("::")[-1], L))
+                        frame.locals[L] = Unknown("loop:%s:bb%d:_%d" % (body["path"].split("::")[-1], bi, L))
+                    # memory behind opaque references that the first trip changed may change on every trip
+                    h0 = path.loop_heap.get(wk, {})
+                    for hk, hv in list(path.heap.items()):
+                        if hk not in h0 or h0[hk].key() != hv.key():
+                            path.heap[hk] = Unknown("loop-heap:%s" % body["path"].split("::")[-1])
                     for b2 in blocks:
                         frame.visits[b2] = 0
                     frame.visits[bi] = 1
@@ -618,6 +631,9 @@ class Interp:
                 else:
                     path.status, path.note = "unrecognised", "loop: bb%d of %s revisited" % (bi, body["path"])
                     return []
+            if is_head:
+                start_state = {L: frame.locals[L] for L in (arrive_state or {}) if L in frame.locals}
+                path.events.append(("loophead", bi, body["path"], frame.fid, arrive_state, start_state))
             blk = body["blocks"][bi]
             for st in blk["stmts"]:
                 if st["k"] == "assign":
